@@ -2,7 +2,7 @@
      (14 <elasticsearch scenario>)   — property C14, model Model/EsClient.v
      (15 <producer / error-report case>) — property C15, model Model/Producer.v *)
 From Coq Require Import List ZArith Bool.
-From FB Require Import Lib.Sexp Lib.Eqb Lib.E7Lib Model.Producer.
+From FB Require Import Lib.Sexp Lib.Eqb Lib.E7Lib Model.Producer Model.EsClient.
 Import ListNotations.
 Open Scope Z_scope.
 
@@ -201,7 +201,215 @@ Definition judge15 (ti to : tree) : tree :=
   | _, _ => malformed
   end.
 
-Definition judge14 (ti to : tree) : tree := malformed.
+
+(* ====================================================================================================== *)
+(* ---------- C14: input, observation ---------- *)
+Record einput := { ei_cfg : ecfg; ei_ops : list op; ei_script : script; ei_clean : bool }.
+
+(* answers per op (in op order): the answer codes that event got;  calls: the bulk requests seen by the scripted
+   service, as a multiset;  high: high-water mark of concurrent bulk requests;  unreliable: the harness saw a
+   scheduling stall that could have let the idle timer split a batch (the case is skipped, and counted);
+   timeout: the harness gave up waiting for quiescence *)
+Record eobs := {
+  eo_unreliable : bool; eo_timeout : bool;
+  eo_answers : list (Z * list tree); eo_calls : list (list doc); eo_high : Z;
+}.
+
+Definition enc_answer (a : answer) : tree :=
+  match a with ASuccess => T [L 0] | AIndexErr s t => T [L 1; L s; L t] | AOther => T [L 2] end.
+
+Definition op_ids (ops : list op) : list Z :=
+  flat_map (fun o => match o with OpDoc d => [d_id d] | OpBad id => [id] | OpPause => [] end) ops.
+Definition docs_of (ops : list op) : list doc :=
+  flat_map (fun o => match o with OpDoc d => [d] | _ => [] end) ops.
+Definition bads_of (ops : list op) : list Z :=
+  flat_map (fun o => match o with OpBad id => [id] | _ => [] end) ops.
+
+Definition answers_of (id : Z) (l : list (Z * answer)) : list answer :=
+  map snd (filter (fun p => fst p =? id) l).
+
+Definition model_eobs (i : einput) : eobs :=
+  let r := es_run (ei_cfg i) (ei_script i) (ei_ops i) (ei_clean i) in
+  {| eo_unreliable := false; eo_timeout := false;
+     eo_answers := map (fun id => (id, map enc_answer (answers_of id (e_answers r)))) (op_ids (ei_ops i));
+     eo_calls := e_calls r; eo_high := 0 |}.
+
+(* ---------- the statement of C14 as a decision procedure on observations ---------- *)
+
+(* what the statement promises one accepted document whose own outcomes are [sc 0, sc 1, ...] when no whole-request
+   error interferes: success at the first 2xx; a mapping conflict fails at once; any other failure is retried, up to
+   [rem] more times, and then fails with the last attempt's error.  Result: (the one answer, how often it is sent). *)
+Fixpoint fate (rem n : nat) (sc : nat -> outcome) : answer * nat :=
+  match sc n with
+  | OOk | OWhole => (ASuccess, S n)
+  | OMapping => (AIndexErr (Z.of_nat n) 2, S n)
+  | ORetry => match rem with O => (AIndexErr (Z.of_nat n) 1, S n) | S r => fate r (S n) sc end
+  | ONoErr => match rem with O => (AIndexErr (-1) 3, S n) | S r => fate r (S n) sc end
+  end.
+
+Definition no_whole (sc : script) : bool :=
+  forallb (fun e => forallb (fun ol => negb (is_whole (fst ol))) (snd e)) sc.
+
+(* the documents accepted since arrivals last paused *)
+Definition since_pause (ops : list op) : list doc :=
+  fold_left (fun acc o => match o with OpDoc d => acc ++ [d] | OpPause => [] | OpBad _ => acc end) ops [].
+(* of those, the ones not yet in a full batch: still pending if Shutdown comes now *)
+Definition pending_at_end (cfg : ecfg) (ops : list op) : list doc :=
+  let l := since_pause ops in skipn (length l - (length l mod batch_size cfg))%nat l.
+
+Definition doc_eqb (a b : doc) : bool :=
+  (d_id a =? d_id b) && (d_idx a =? d_idx b) && (d_hasid a =? d_hasid b) && (d_body a =? d_body b).
+
+Definition in_domain14 (i : einput) : bool :=
+  (1 <=? batch_size (ei_cfg i))%nat && (1 <=? max_retries (ei_cfg i))%nat && (1 <=? workers (ei_cfg i))%nat
+  && nodupb (op_ids (ei_ops i)).
+
+Fixpoint lookup_answers (id : Z) (l : list (Z * list tree)) : list tree :=
+  match l with
+  | [] => []
+  | (i, a) :: rest => if i =? id then a else lookup_answers id rest
+  end.
+Definition has_doc (id : Z) (c : list doc) : bool := existsb (fun d => d_id d =? id) c.
+Definition count_calls (id : Z) (calls : list (list doc)) : nat := length (filter (has_doc id) calls).
+
+(* failing clauses (property 14):
+   1 [id]   an accepted request is not answered exactly once with the answer the statement promises
+   2 [id]   a document is sent more or less often than the statement allows (mapping errors never re-sent, other
+            failures re-sent until bulk-index-max-retries, nothing re-sent once answered)
+   3        a bulk request holds more than batch-size documents, a document twice, or a document whose
+            index / id / body is not that of an accepted request
+   4 [high] more than index-workers bulk requests in flight at once
+   5        no quiescence: a partial batch was not sent (or requests stayed unanswered) although arrivals paused
+   6 [1;id] Shutdown left an accepted request unanswered; detail 1 = it was still in the pending batch
+   7 [id]   a wrong-typed payload is not answered with exactly one error, or was enqueued *)
+Definition spec_c14 (i : einput) (o : eobs) : list tree :=
+  if eo_unreliable o || negb (in_domain14 i) then [] else
+  let cfg := ei_cfg i in
+  let docs := docs_of (ei_ops i) in
+  let pend := if ei_clean i then [] else pending_at_end cfg (ei_ops i) in
+  let nw := no_whole (ei_script i) in
+  let f d := fate (max_retries cfg) O (outcome_at (ei_script i) (d_id d)) in
+  let dropped d := has_doc (d_id d) pend && is_empty_list (lookup_answers (d_id d) (eo_answers o)) in
+  flat_map (fun d =>
+    let got := lookup_answers (d_id d) (eo_answers o) in
+    if dropped d then [clause 14 6 [L 1; L (d_id d)]]
+    else if nw then (if list_eqb tree_eqb got [enc_answer (fst (f d))] then [] else [clause 14 1 [L (d_id d)]])
+    else match got with [_] => [] | _ => [clause 14 1 [L (d_id d)]] end) docs
+  ++ flat_map (fun d =>
+    if negb nw || dropped d then []
+    else if (count_calls (d_id d) (eo_calls o) =? snd (f d))%nat then [] else [clause 14 2 [L (d_id d)]]) docs
+  ++ (if forallb (fun c => (length c <=? batch_size cfg)%nat && nodupb (map d_id c)
+                           && forallb (fun x => existsb (doc_eqb x) docs) c) (eo_calls o)
+      then [] else [clause 14 3 []])
+  ++ (if eo_high o <=? Z.of_nat (workers cfg) then [] else [clause 14 4 [L (eo_high o)]])
+  ++ (if eo_timeout o then [clause 14 5 []] else [])
+  ++ flat_map (fun id =>
+    if list_eqb tree_eqb (lookup_answers id (eo_answers o)) [enc_answer AOther] && (count_calls id (eo_calls o) =? 0)%nat
+    then [] else [clause 14 7 [L id]]) (bads_of (ei_ops i)).
+
+(* ---------- wire (C14) ---------- *)
+Definition dec_doc (t : tree) : option doc :=
+  match t with
+  | T [L a; L b; L c; L d] => Some {| d_id := a; d_idx := b; d_hasid := c; d_body := d |}
+  | _ => None
+  end.
+Definition dec_op (t : tree) : option op :=
+  match t with
+  | T [L 0; L a; L b; L c; L d] => Some (OpDoc {| d_id := a; d_idx := b; d_hasid := c; d_body := d |})
+  | T [L 1; L id] => Some (OpBad id)
+  | T [L 2] => Some OpPause
+  | _ => None
+  end.
+Definition dec_outcome (t : tree) : option (outcome * bool) :=
+  match t with
+  | L 0 => Some (OOk, false) | L 1 => Some (ORetry, false) | L 2 => Some (OMapping, false)
+  | L 3 => Some (ONoErr, false) | L 4 => Some (OWhole, false)
+  | L 10 => Some (OOk, true) | L 11 => Some (ORetry, true) | L 12 => Some (OMapping, true) | L 13 => Some (ONoErr, true)
+  | _ => None
+  end.
+Definition dec_script_entry (t : tree) : option (Z * list (outcome * bool)) :=
+  match t with T [L id; os] => os <- getList dec_outcome os ;; Some (id, os) | _ => None end.
+Definition dec_einput (t : tree) : option einput :=
+  match t with
+  | T [T [bs; mr; w; L _]; ops; sc; L e] =>
+      bs <- getNat bs ;; mr <- getNat mr ;; w <- getNat w ;; ops <- getList dec_op ops ;;
+      sc <- getList dec_script_entry sc ;;
+      ok <- (if (e =? 0) || (e =? 1) then Some tt else None) ;;
+      Some {| ei_cfg := {| batch_size := bs; max_retries := mr; workers := w |}; ei_ops := ops; ei_script := sc;
+              ei_clean := e =? 0 |}
+  | _ => None
+  end.
+Definition dec_ans (t : tree) : option (Z * list tree) :=
+  match t with T [L id; T codes] => Some (id, codes) | _ => None end.
+Definition dec_eobs (t : tree) : option eobs :=
+  match t with
+  | T [T [u; to]; ans; calls; L h] =>
+      u <- getB u ;; to <- getB to ;; ans <- getList dec_ans ans ;; calls <- getList (getList dec_doc) calls ;;
+      Some {| eo_unreliable := u; eo_timeout := to; eo_answers := ans; eo_calls := calls; eo_high := h |}
+  | _ => None
+  end.
+Definition enc_doc (d : doc) : tree := T [L (d_id d); L (d_idx d); L (d_hasid d); L (d_body d)].
+Definition enc_eobs (o : eobs) : tree :=
+  T [T [ofB (eo_unreliable o); ofB (eo_timeout o)];
+     ofList (fun a => T [L (fst a); T (snd a)]) (eo_answers o);
+     ofList (ofList enc_doc) (eo_calls o); L (eo_high o)].
+
+(* multiset equality of bulk requests *)
+Fixpoint remove_first (c : list doc) (l : list (list doc)) : option (list (list doc)) :=
+  match l with
+  | [] => None
+  | x :: l' => if list_eqb doc_eqb c x then Some l'
+               else match remove_first c l' with Some r => Some (x :: r) | None => None end
+  end.
+Fixpoint calls_perm (a b : list (list doc)) : bool :=
+  match a with
+  | [] => is_empty_list b
+  | c :: a' => match remove_first c b with Some b' => calls_perm a' b' | None => false end
+  end.
+
+Definition ans_eqb (a b : Z * list tree) : bool := (fst a =? fst b) && list_eqb tree_eqb (snd a) (snd b).
+
+(* observable components (C14): 11 answers per event, 12 multiset of bulk requests, 13 quiescence reached.
+   The high-water mark is schedule-dependent and only judged by clause 4. *)
+Definition eobs_diffs (m o : eobs) : list Z :=
+  if eo_unreliable o then []
+  else diff_if (list_eqb ans_eqb (eo_answers m) (eo_answers o)) 11
+       ++ diff_if (calls_perm (eo_calls m) (eo_calls o)) 12
+       ++ diff_if (Bool.eqb (eo_timeout m) (eo_timeout o)) 13.
+
+(* branch tags (C14): 4 outside the quantifier (duplicate ids, zero sizes), 5 skipped: unreliable timing,
+   20 a document was re-sent, 21 retries exhausted, 22 mapping error, 23 non-2xx without error field at the last attempt,
+   24 partial batch sent by the idle timer, 25 full batch, 26 wrong-typed payload, 27 Shutdown with a pending batch,
+   28 late response, 29 whole-request error, 30 several requests with more than one worker, 31 success after retry *)
+Definition has_answer (p : answer -> bool) (r : esres) : bool := existsb (fun x => p (snd x)) (e_answers r).
+Definition etags (i : einput) (o : eobs) : list Z :=
+  let cfg := ei_cfg i in
+  let r := es_run cfg (ei_script i) (ei_ops i) (ei_clean i) in
+  (if in_domain14 i then [] else [4]) ++ (if eo_unreliable o then [5] else [])
+  ++ (if existsb (fun d => (2 <=? count_calls (d_id d) (e_calls r))%nat) (docs_of (ei_ops i)) then [20] else [])
+  ++ (if has_answer (fun a => match a with AIndexErr _ 1 => true | _ => false end) r then [21] else [])
+  ++ (if has_answer (fun a => match a with AIndexErr _ 2 => true | _ => false end) r then [22] else [])
+  ++ (if has_answer (fun a => match a with AIndexErr _ 3 => true | _ => false end) r then [23] else [])
+  ++ (if existsb (fun c => (length c <? batch_size cfg)%nat) (e_calls r) then [24] else [])
+  ++ (if existsb (fun c => (length c =? batch_size cfg)%nat) (e_calls r) then [25] else [])
+  ++ (match bads_of (ei_ops i) with [] => [] | _ => [26] end)
+  ++ (match e_dropped r with [] => [] | _ => [27] end)
+  ++ (if existsb (fun e => existsb (fun ol => snd ol) (snd e)) (ei_script i) then [28] else [])
+  ++ (if no_whole (ei_script i) then [] else [29])
+  ++ (if (2 <=? workers cfg)%nat && (2 <=? length (e_calls r))%nat then [30] else [])
+  ++ (if existsb (fun d => (2 <=? count_calls (d_id d) (e_calls r))%nat
+                            && list_eqb tree_eqb (map enc_answer (answers_of (d_id d) (e_answers r))) [T [L 0]])
+                 (docs_of (ei_ops i)) then [31] else []).
+
+Definition judge14 (ti to : tree) : tree :=
+  match dec_einput ti, dec_eobs to with
+  | Some i, Some o =>
+      if e_fuel_out (es_run (ei_cfg i) (ei_script i) (ei_ops i) (ei_clean i)) then malformed
+      else
+        let m := model_eobs i in
+        verdict (eobs_diffs m o) (spec_c14 i o) (enc_eobs m) (etags i o)
+  | _, _ => malformed
+  end.
 
 (* case := T [input; impl_obs], input := T [L 14; scenario] | T [L 15; pcase] *)
 Definition judge (t : tree) : tree :=
